@@ -1,8 +1,180 @@
-import Lean.Data.Json
-/- stub: the C11 driver is not built yet -/
-namespace Glom.C11.Driver
-open Lean
+import Glom.Py.Json
+import Glom.Spec.C11
+import Glom.Model.C11Env
+/-
+  C11 driver: one JSON case in, one JSON verdict out.
 
-def run (_j : Json) : Except String Json := .error "property C11: driver not implemented yet"
+  case: {"classes":[[cls,[mro…]]…], "cflags":[[cls,[flag…]]…], "heap":[Obj…], "target":Val,
+         "scope": Val|null,  "root": "T"|"S",
+         "spelling": {"text":"a.b"} | {"parts":[{"seg":Val} | {"t":[[op,Val]…]}…]},
+         "value": {"lit":Val} | {"t":[[op,Val]…]},
+         "missing": null | "dict" | "list" | "obj" | "tuple" | "raise",
+         "impl": {"res": {"ok":Val} | {"err":{"cls":…,"inner":…|null,"idx":…|null,"dest":Val|null,
+                                               "pae":b,"passign":b,"pdelete":b,"glom":b}},
+                  "heap":[Obj…], "calls":n, "hidden":b}}
+-/
+namespace Glom.C11.Driver
+open Lean Glom Glom.Mut Glom.C11
+
+def stepOfJson (j : Json) : Except String Step := pairOfJson strOfJson valOfJson j
+
+def partOfJson (j : Json) : Except String C01.Part := do
+  if let .ok v := j.getObjVal? "seg" then return .seg (← valOfJson v)
+  else if let .ok t := j.getObjVal? "t" then return .t (← listOfJson stepOfJson t)
+  else throw s!"bad part {j.compress}"
+
+def stepsOfSpelling (sp : Json) : Except String (List Step) := do
+  if let .ok t := sp.getObjValAs? String "text" then return C01.stepsOfParts (C01.partsOfText t.toList)
+  else return C01.stepsOfParts (← listOfJson partOfJson (← sp.getObjVal? "parts"))
+
+def optOf {α} (f : Json → Except String α) (j : Json) : Except String (Option α) :=
+  match j with
+  | .null => pure none
+  | _ => do return some (← f j)
+
+def obsResOfJson (j : Json) : Except String ObsRes := do
+  if let .ok v := j.getObjVal? "ok" then return .ok (← valOfJson v)
+  else
+    let e ← j.getObjVal? "err"
+    -- `dest` is a Val whose JSON for None is null: wrapped as {"v": Val} | null
+    let dest ← match e.getObjVal? "dest" with
+      | .ok .null => pure none
+      | .ok d => do pure (some (← valOfJson (← d.getObjVal? "v")))
+      | .error _ => pure none
+    return .err (← e.getObjValAs? String "cls")
+      (← optOf strOfJson ((e.getObjVal? "inner").toOption.getD .null))
+      (← optOf natOfJson ((e.getObjVal? "idx").toOption.getD .null))
+      dest
+      (← e.getObjValAs? Bool "pae") (← e.getObjValAs? Bool "passign")
+      (← e.getObjValAs? Bool "pdelete") (← e.getObjValAs? Bool "glom")
+
+def obsOfJson (j : Json) : Except String Obs := do
+  return { res := ← obsResOfJson (← j.getObjVal? "res")
+           heap := ← heapOfJson (← j.getObjVal? "heap")
+           calls := ← j.getObjValAs? Nat "calls"
+           hidden := ← j.getObjValAs? Bool "hidden" }
+
+def optToJson {α} (f : α → Json) : Option α → Json
+  | some a => f a
+  | none => .null
+
+def obsResToJson : ObsRes → Json
+  | .ok v => Json.mkObj [("ok", valToJson v)]
+  | .err c inner idx dest pae pa pd g => Json.mkObj [("err", Json.mkObj [
+      ("cls", c), ("inner", optToJson Json.str inner), ("idx", optToJson (fun (n : Nat) => toJson n) idx),
+      ("dest", optToJson (fun v => Json.mkObj [("v", valToJson v)]) dest),
+      ("pae", pae), ("passign", pa), ("pdelete", pd), ("glom", g)])]
+
+def obsToJson (o : Obs) : Json :=
+  Json.mkObj [("res", obsResToJson o.res), ("heap", heapToJson o.heap), ("calls", o.calls),
+    ("hidden", o.hidden)]
+
+def missingOfJson (j : Json) : Except String Missing :=
+  match j with
+  | .null => pure .none
+  | .str k => pure (.factory k)
+  | _ => throw s!"bad missing {j.compress}"
+
+def valSpecOfJson (j : Json) : Except String ValSpec := do
+  if let .ok v := j.getObjVal? "lit" then return .lit (← valOfJson v)
+  else return .path (← listOfJson stepOfJson (← j.getObjVal? "t"))
+
+def flagsOfJson (j : Json) : Except String (List (String × List String)) :=
+  listOfJson (pairOfJson strOfJson (listOfJson strOfJson)) j
+
+structure Common where
+  env : MEnv
+  heap : Heap
+  target : Val
+  sroot : Bool
+  sref : Val
+  steps : List Step
+
+def commonOfJson (j : Json) : Except String Common := do
+  let classes ← classTableOfJson (← j.getObjVal? "classes")
+  let flags ← flagsOfJson (← j.getObjVal? "cflags")
+  let heap ← heapOfJson (← j.getObjVal? "heap")
+  let target ← valOfJson (← j.getObjVal? "target")
+  let root ← j.getObjValAs? String "root"
+  let sref ← match j.getObjVal? "scope" with
+    | .ok .null => pure Val.none
+    | .ok v => valOfJson v
+    | .error _ => pure Val.none
+  let steps ← stepsOfSpelling (← j.getObjVal? "spelling")
+  return { env := genEnv classes flags, heap, target, sroot := root == "S", sref, steps }
+
+/-! ### canonical numbering of the model's heap (for comparing with the harness' snapshot):
+    pre-existing cells keep their address, then the factory-made objects in call order, then every
+    other new cell reachable from those in first-visit (pre-order) order; unreachable new cells
+    (garbage the harness cannot see) are dropped. -/
+
+def refsOf : Obj → List Nat
+  | .list _ xs | .tuple _ xs | .set _ xs => xs.filterMap (fun v => match v with | .ref a => some a | _ => none)
+  | .dict _ es => (es.flatMap (fun e => [e.1, e.2])).filterMap (fun v => match v with | .ref a => some a | _ => none)
+  | .inst _ as => as.filterMap (fun e => match e.2 with | .ref a => some a | _ => none)
+
+partial def visit (h : Heap) (order : Array Nat) (a : Nat) : Array Nat :=
+  if order.contains a then order
+  else match h[a]? with
+    | some o => (refsOf o).foldl (visit h) (order.push a)
+    | none => order
+
+def canonOrder (h : Heap) (n : Nat) (made : List Nat) : Array Nat := Id.run do
+  let mut order : Array Nat := (List.range n).toArray
+  for a in made do
+    if !order.contains a then order := order.push a
+  let mut i := 0
+  while i < order.size do
+    match h[order[i]!]? with
+    | some o => for r in refsOf o do order := visit h order r
+    | none => pure ()
+    i := i + 1
+  return order
+
+def renameVal (order : Array Nat) : Val → Val
+  | .ref a => match order.idxOf? a with
+    | some i => .ref i
+    | none => .ref a
+  | v => v
+
+def renameObj (order : Array Nat) : Obj → Obj
+  | .list c xs => .list c (xs.map (renameVal order))
+  | .tuple c xs => .tuple c (xs.map (renameVal order))
+  | .set c xs => .set c (xs.map (renameVal order))
+  | .dict c es => .dict c (es.map (fun e => (renameVal order e.1, renameVal order e.2)))
+  | .inst c as => .inst c (as.map (fun e => (e.1, renameVal order e.2)))
+
+def canonHeap (h : Heap) (n : Nat) (made : List Nat) : Heap :=
+  let order := canonOrder h n made
+  order.toList.filterMap (fun a => (h[a]?).map (renameObj order))
+
+def resTag : ObsRes → String
+  | .ok _ => "ok"
+  | .err c (some i) .. => s!"{c}({i})"
+  | .err c none .. => c
+
+def run (j : Json) : Except String Json := do
+  let c ← commonOfJson j
+  let vs ← valSpecOfJson (← j.getObjVal? "value")
+  let missing ← missingOfJson ((j.getObjVal? "missing").toOption.getD .null)
+  let implObs ← obsOfJson (← j.getObjVal? "impl")
+  let root := if c.sroot then c.sref else c.target
+  let out := assign c.env c.sroot c.sref missing c.heap c.target c.steps vs
+  let modelObs := observe c.env out
+  let ref := refAssign c.env c.heap c.target root c.steps vs missing
+  if ref == .unsupported || (match out.2 with | .error .unmodelled => true | _ => false) then
+    return Json.mkObj [("skip", true), ("why", "path outside the modelled domain (`**` / wildcard value)")]
+  let canon : Obs := { modelObs with heap := canonHeap out.1.heap c.heap.length out.1.made }
+  let agree := canon == implObs
+  let holds := checkC11 c.env c.heap c.target root c.steps vs missing implObs
+  let modelHolds := checkC11 c.env c.heap c.target root c.steps vs missing modelObs
+  let star := hasStar c.steps
+  let branch := (if c.sroot then "S:" else "") ++ (if star then "star:" else "") ++
+    (if out.1.calls > 0 then s!"missing{out.1.calls}:" else "") ++ resTag modelObs.res
+  return Json.mkObj [("agree", agree), ("holds", holds), ("model_holds", modelHolds),
+    ("wf", WF c.env), ("model", obsToJson canon),
+    ("ref", match ref with
+      | .ok _ hid n => s!"ok hidden={hid} calls={n}" | .fail a => s!"fail atomic={a}" | .unsupported => "unsupported"),
+    ("branch", branch)]
 
 end Glom.C11.Driver
